@@ -63,12 +63,19 @@ theorem C09_validate (n : Name) :
     validateName n = true ↔ utf16Len n ≤ 31 ∧ 47 ∉ n ∧ 92 ∉ n ∧ 58 ∉ n ∧ 33 ∉ n :=
   validateName_iff n
 
-/-- **Path normalisation**, on components: resolvable `..`, `.`, and a root component. -/
-theorem C09_path_norm (pre post : List Comp) (x : Name) (acc : List Name) :
+/-- **Path normalisation**, on components: resolvable `..`, `.`, and a root component.  (`x` is a
+component that is text; a component that is not valid UTF-8 is refused wherever it stands —
+`C09_path_nontext` — so `a/<bad>/..` is `InvalidInput` although it would resolve.) -/
+theorem C09_path_norm (pre post : List Comp) (x : Name) (acc : List Name) (hx : isText x = true) :
     chainFold acc (pre ++ [.normal x, .parent] ++ post) = chainFold acc (pre ++ post) ∧
     chainFold acc (pre ++ [.cur] ++ post) = chainFold acc (pre ++ post) ∧
     chainFold [] (.parent :: post) = none :=
-  ⟨chain_dotdot pre post x acc, chain_dot pre post acc, chain_escape post⟩
+  ⟨chain_dotdot pre post x acc hx, chain_dot pre post acc, chain_escape post⟩
+
+/-- a path with a component that is not valid UTF-8 is `InvalidInput` -/
+theorem C09_path_nontext (pre post : List Comp) (x : Name) (acc : List Name) (hx : isText x = false)
+    (hp : chainFold acc pre ≠ none) : chainFold acc (pre ++ [.normal x] ++ post) = none :=
+  chain_nontext pre post x acc hx hp
 
 /-- … and on path strings: a leading slash and a trailing slash address the same object. -/
 theorem C09_path_slashes (p : List Nat) :
@@ -76,8 +83,9 @@ theorem C09_path_slashes (p : List Nat) :
   ⟨nameChain_leading_slash p, fun hp => by unfold nameChain; rw [components_trailing_slash p hp]⟩
 
 /-- A path made of plain names resolves to exactly those names (stored verbatim). -/
-theorem C09_path_plain (ns : List Name) : chainFold [] (ns.map .normal) = some ns := by
-  simpa using chain_normals ns []
+theorem C09_path_plain (ns : List Name) (ht : ∀ n ∈ ns, isText n = true) :
+    chainFold [] (ns.map .normal) = some ns := by
+  simpa using chain_normals ns [] ht
 
 /-! ### Non-vacuity / sanity on concrete names -/
 
